@@ -4,7 +4,7 @@ CONSTANTS
   ScaleArgs <- MCScaleArgs
   AseArgs <- MCAseArgs
   NliArgs <- MCNliArgs
-  Cuts <- MCCuts
+  Splits <- MCSplits
   MaxDepth = 4
 INIT MCInit
 NEXT MCNext
